@@ -738,12 +738,30 @@ func c15Docs() [][]string {
 	// key order variations and minimal elements
 	docs = append(docs, []string{`{"props":{"p":1},"id":"e1","refs":{}}`}, []string{`{"refs":{"r":"t1"},"deleted":true,"id":"e1"}`},
 		[]string{`{"id":"e1"}`}, []string{`{"id":"e1","props":{}}`}, []string{`{"id":"e1","refs":{}}`}, []string{})
+	// long arrays: 130 nested entities (order lines), 130 sub-arrays (a table), 300 scalars, 130 references
+	var lines, rows, nums, refs []string
+	for i := 0; i < 300; i++ {
+		if i < 130 {
+			lines = append(lines, fmt.Sprintf(`{"id":"line%d","props":{"n":%d},"refs":{}}`, i, i))
+			rows = append(rows, fmt.Sprintf(`[%d,"c%d"]`, i, i))
+			refs = append(refs, fmt.Sprintf(`"t%d"`, i))
+		}
+		nums = append(nums, fmt.Sprint(i))
+	}
+	docs = append(docs, []string{ent("e1", "["+strings.Join(lines, ",")+"]", ``, "", false)},
+		[]string{ent("e1", "["+strings.Join(rows, ",")+"]", ``, "", false)},
+		[]string{ent("e1", "["+strings.Join(nums, ",")+"]", `"r":[`+strings.Join(refs, ",")+`]`, "", false)})
 	return docs
 }
 
 // ctxAltJSON binds the same prefixes to other namespaces (requests with different contexts follow each other)
 func ctxAltJSON() string {
 	return `{"id":"@context","namespaces":{"_":"http://alt/","ex":"http://alt.ex/ns#","s":"https://alt.sec/","httpx":"http://alt.hx/"}}`
+}
+
+// ctxOddJSON: expansions that do not end in a separator: a CURIE still denotes expansion + local part, nothing else
+func ctxOddJSON() string {
+	return `{"id":"@context","namespaces":{"_":"urn:d:","ex":"urn:isbn:","s":"https://sec/item-","httpx":"http://hx/q?id="}}`
 }
 
 func docTextCtx(ctx string, ents []string, cont string) string {
@@ -925,12 +943,16 @@ func c15Run(t c15Task) (res c15Result) {
 	case "roundtrip":
 		docs := c15Docs()
 		for i := t.From; i < t.To && i < len(docs); i++ {
-			for _, cont := range []string{"", "dG9r", "alt"} {
+			for _, cont := range []string{"", "dG9r", "alt", "odd"} {
 				text := docText(docs[i], cont)
 				if cont == "alt" {
 					// the same document under a context that binds every prefix to another namespace
 					cont = ""
 					text = docTextCtx(ctxAltJSON(), docs[i], "")
+				} else if cont == "odd" {
+					// ... and under one whose expansions do not end in "/" or "#" (URNs, a common stem)
+					cont = ""
+					text = docTextCtx(ctxOddJSON(), docs[i], "")
 				}
 				label := fmt.Sprintf("doc%d", i)
 				class := res.judgeParse(w, "roundtrip", label, text, false)
